@@ -6,7 +6,7 @@ import dataclasses
 import typing as t
 
 from typelib import marshals, serdes, unmarshals
-from typelib.py import classes, compat, inspection
+from typelib.py import classes, compat, inspection, refs
 
 __all__ = ("Codec", "codec")
 
@@ -57,7 +57,7 @@ def codec(
     marshal = marshaller or marshals.marshaller(t=t)
     unmarshal = unmarshaller or unmarshals.unmarshaller(t=t)
     cls = codec_cls or Codec
-    if inspection.isbytestype(t):
+    if isbyteslike(t):
         cdc = cls(
             marshal=marshal,
             unmarshal=unmarshal,
@@ -72,6 +72,17 @@ def codec(
         decoder=decoder,
     )
     return cdc
+
+
+def isbyteslike(t: t.Any) -> bool:
+    """Whether `t` stands for a bytes-like type, which a codec carries verbatim.
+
+    References are evaluated and qualifiers, aliases and NewTypes are looked through,
+    exactly as the marshaller and unmarshaller for `t` do.
+    """
+    if isinstance(t, (str, refs.ForwardRef)):
+        t = refs.evaluate(refs.forwardref(t) if isinstance(t, str) else t)
+    return inspection.isbytestype(inspection.unwrap(t))
 
 
 @classes.slotted(dict=False, weakref=False)
